@@ -22,7 +22,8 @@ RULE = ('cross-sections: tables 2-5 T x 2-5 P x 1-6 wn (1e-40..1e-18 m2, some ze
         'prefixes and dotted/underscored suffixes; (T,P) interior / outside / node; both interpolation modes. '
         'CIA: pickle .db and HITRAN .cia (single range; per-temperature disjoint ranges with gaps; negative entries). '
         'k-tables: pickle and HDF5 (1-4 g-points). cache: 8-40 op histories over 2-3 directories (one missing) with '
-        'pickle/HDF5/Exo files of 3 molecules + a missing one. distinct non-trivial = distinct (kind, format/unit, '
+        'pickle/HDF5/Exo files of 3 molecules + a missing one; k-table cache and CIA cache (get / set path, single or list / '
+        'add; .db and .cia files of 3 pairs) histories alike. distinct non-trivial = distinct (kind, format/unit, '
         'shape, region / history signature) with a non-constant table')
 ASSUMPTIONS = ['pickle / h5py / text I/O return the numbers that were written (containers trusted; files are really '
                'written and really read by the repo loaders)',
@@ -32,7 +33,10 @@ ASSUMPTIONS = ['pickle / h5py / text I/O return the numbers that were written (c
                'np.searchsorted on sorted arrays = countP (shared with C04)',
                'hashwn(start,end) (string concatenation) separates the generated wavenumber ranges',
                'glob order inside one class is irrelevant: a molecule is provided by at most one file per class and '
-               'directory (pickle vs Exo-Transmit share a priority and are never both given for one molecule)',
+               'directory (pickle vs Exo-Transmit share a priority and are never both given for one molecule); a k-table '
+               'molecule by one file per directory; for the property predicates a CIA pair by one file of the configured '
+               'cia_path (the lock-step comparison with CiaSM.step also covers pairs provided twice and .cia files whose '
+               'block headers carry another pair name than the file name)',
                'rounding: model on Float vs numpy doubles compared to 1e-9 relative (grids 1e-12); the +1e-60 of the '
                'Exo-Transmit reader is below the absolute floor']
 
@@ -123,6 +127,81 @@ _CACHE_SPECS = [
     _oc('__getitem__', params=dict(key='str'), state=['self.opacity_dict'], writes_world=True),
 ]
 
+# The k-table cache (taurex/cache/ktablecache.py) against the k-table variant of TaurexModel/CacheSM.lean (`stepK`): same
+# reading as above with dict = KTableCache().opacity_dict, path = GlobalCache()['ktable_path'] (what the k-table classes'
+# `discover()` read; `self._opacity_path` is handed to load_opacity_from_path, which does not use it).  `c.discover()` may
+# raise here (the loop catches NotImplementedError and goes on with the next class).
+_KC = 'taurex/cache/ktablecache.py'
+_GC_KPATH = "GlobalCache()['ktable_path']"
+_KAT = {'self.opacity_dict': ('opacity_dict', '{str: $O}'), 'self._opacity_path': ('opacity_path_attr', '?$P'),
+        _GC_KPATH: ('ktable_path', '?$P'), _GC_INT: ('xsec_interp', '?$I')}
+
+
+def _kc(func, **kw):
+    d = dict(module=_KC, cls='KTableCache', func=func, lean='KTableCache_' + func.strip('_'), callname='KTableCache.' + func,
+             dialect='py', tvars=_CTV, attrs=_KAT, params={}, world=('w', 'W'), ignore_calls=_CLOG,
+             obj_attrs={'O': {'moleculeName': dict(lean='moleculeName', ty='str')}},
+             obj_methods={'K': {'discover': dict(lean='klass_discover', args=[], ret='[(str, $A)]', world='read', raises=True,
+                                                 reads=[_GC_KPATH, _GC_INT])}},
+             externals={'os.path.isdir()': dict(lean='isdir', args=['$P'], ret='bool', world='read')},
+             calls={'self.add_opacity': 'KTableCache.add_opacity', 'self.load_opacity': 'KTableCache.load_opacity',
+                    'self.load_opacity_from_path': 'KTableCache.load_opacity_from_path'})
+    d.update(kw)
+    return d
+
+
+_KCACHE_SPECS = [
+    _kc('set_ktable_path', params=dict(opacity_path='$P'), state=[_GC_KPATH]),
+    _kc('add_opacity', params=dict(opacity='$O', molecule_filter='?[str]'), state=['self.opacity_dict']),
+    _kc('load_opacity_from_path', params=dict(path='?$P', molecule_filter='[str]'), state=['self.opacity_dict'],
+        writes_world=True,
+        expr_externals={'sorted(cf.ktableKlasses, key=lambda x: x.priority())': dict(lean='klass_list', ty='[$K]')},
+        ignore_stmts=[r'cf = ClassFactory\(\)', r'if not isinstance\(args, \(list, tuple\)\):\s+args = \[args\]']),
+    _kc('load_opacity', params=dict(opacities='unit', opacity_path='unit', molecule_filter='[str]'),
+        state=['self.opacity_dict'], writes_world=True),
+    _kc('__getitem__', params=dict(key='str'), state=['self.opacity_dict'], writes_world=True),
+]
+
+# The CIA cache (taurex/cache/ciaacache.py) against `CiaSM` of TaurexModel/CacheSM.lean.  C the CIA objects (opaque; `pairName`),
+# P what `_cia_path` holds (a directory or a list of directories: `isinstance(·, str)`, `isinstance(·, (list,))` and the
+# iteration over it are function parameters), G a glob pattern, KP / KH the classes PickleCIA / HitranCIA
+# (calling one MAKES an object and changes the world), F the file names `glob` returns (`Path(f).stem` is a parameter).
+_CC = 'taurex/cache/ciaacache.py'
+_CCTV = {'C': '', 'P': dict(iter=('path_items', '$P')), 'G': '', 'F': '', 'W': '',
+         'KP': dict(call=('make', ['$F', 'str'], '$C'), lean='construct_pickle'),
+         'KH': dict(call=('make', ['$F'], '$C'), lean='construct_hitran')}
+_CCAT = {'self.cia_dict': ('cia_dict', '{str: $C}'), 'self._cia_path': ('cia_path_attr', '?$P'),
+         # the classes the function imports
+         'PickleCIA': ('PickleCIA_cls', '$KP'), 'HitranCIA': ('HitranCIA_cls', '$KH')}
+
+
+def _cc(func, lean=None, **kw):
+    d = dict(module=_CC, cls='CIACache', func=func, lean=lean or 'CIACache_' + func.strip('_'),
+             callname='CIACache.' + (lean or func), dialect='py', tvars=_CCTV, attrs=_CCAT, params={}, world=('w', 'W'),
+             ignore_calls=_CLOG, total_index=True, obj_attrs={'C': {'pairName': dict(lean='pairName', ty='str')}},
+             externals={'os.path.join()': dict(lean='path_join', args=['$P', 'str'], ret='$G'),
+                        'glob()': dict(lean='glob', args=['$G'], ret='[$F]', world='read')},
+             pattern_externals=[dict(rx=r"Path\((?P<a0>\w+)\)\.stem", lean='path_stem', args=['$F'], ret='str'),
+                                dict(rx=r"isinstance\((?P<a0>\w+), str\)", lean='is_str', args=['$P'], ret='bool'),
+                                dict(rx=r"isinstance\((?P<a0>\w+), \(list,\)\)", lean='is_list', args=['$P'], ret='bool')])
+    d.update(kw)
+    return d
+
+
+_CIACACHE_SPECS = [
+    _cc('set_cia_path', params=dict(cia_path='$P'), state=['self._cia_path']),
+    # add_cia(cia) as load_cia_from_path and a user call it (no filter), and add_cia(cia, pair_filter=[...])
+    _cc('add_cia', params=dict(cia='$C', pair_filter='unit'), state=['self.cia_dict']),
+    _cc('add_cia', lean='CIACache_add_cia_filtered', params=dict(cia='$C', pair_filter='[str]'), state=['self.cia_dict']),
+    _cc('load_cia_from_path', params=dict(path='$P', pair_filter='?[str]'), state=['self.cia_dict'], writes_world=True,
+        calls={'self.add_cia': 'CIACache.add_cia'}),
+    _cc('load_cia', params=dict(cia_xsec='unit', cia_path='unit', pair_filter='?[str]'), state=['self.cia_dict'],
+        writes_world=True,
+        calls={'self.load_cia_from_path': 'CIACache.load_cia_from_path'}),
+    _cc('__getitem__', params=dict(key='str'), state=['self.cia_dict'], writes_world=True,
+        calls={'self.load_cia': 'CIACache.load_cia'}),
+]
+
 # The assignments of the file readers that turn container contents into the loaded table (unit conversions, axes): the I/O
 # before `start_at` fills the declared cells `self._spec_dict[...]` and is not translated; neither is what follows `stop_at`
 # (resolution, molecule name, min/max bookkeeping).
@@ -199,6 +278,64 @@ _HITRAN_SPECS = [
          calls={'self.fill_gaps': 'HitranCIA.fill_gaps', 'self.compute_final_grid': 'HitranCIA.compute_final_grid'}),
 ]
 
+# The Exo-Transmit text reader after `lines = f.readlines()`: `lines` (the text lines) is a parameter, so are `float`-parsing a
+# line (`np.array([float(l) for l in X.split()])`: `parse_floats`), `np.empty` (an array of that shape with unspecified
+# content) and `argsort`.  Block splitting, counters, the stores into the 3-D table, the re-ordering along the wavenumber
+# axis and the unit factors are translated.
+_EX = 'taurex/opacity/exotransmit.py'
+_EXA = {'self._temperature_grid': ('temperature_grid', '[α]'), 'self._pressure_grid': ('pressure_grid', '[α]'),
+        'self._wavenumber_grid': ('wavenumber_grid', '[α]'), 'self._xsec_grid': ('xsec_grid', _T3),
+        'self._min_pressure': ('min_pressure', 'α'), 'self._max_pressure': ('max_pressure', 'α'),
+        'self._min_temperature': ('min_temperature', 'α'), 'self._max_temperature': ('max_temperature', 'α')}
+_EXO_PARSE = [dict(rx=r"np\.array\(\[float\(l\) for l in (?P<a0>[\w\[\]]+)\.split\(\)\]\)", lean='parse_floats', args=['str'],
+                   ret='[α]'),
+              dict(rx=r"(?P<a0>\w+)\.argsort\(\)", lean='np_argsort', args=['[α]'], ret='[nat]')]
+
+
+def _exo_prop(name, cell):
+    return dict(module=_EX, cls='ExoTransmitOpacity', func=name, lean='ExoTransmit_' + name, callname='self.' + name,
+                dialect='py', attrs={cell: _EXA[cell]}, params={}, property=True)
+
+
+_EXO_SPECS = [
+    _exo_prop('wavenumberGrid', 'self._wavenumber_grid'),
+    _exo_prop('temperatureGrid', 'self._temperature_grid'),
+    _exo_prop('pressureGrid', 'self._pressure_grid'),
+    dict(module=_EX, cls='ExoTransmitOpacity', func='_load_exo_transmit', lean='ExoTransmit_load', dialect='py', attrs=_EXA,
+         params=dict(filename='skip'), free_locals={'lines': '[str]'}, total_index=True,
+         start_at=r"self\._temperature_grid = np\.array\(.*\)",
+         state=['self._temperature_grid', 'self._pressure_grid', 'self._wavenumber_grid', 'self._xsec_grid',
+                'self._min_pressure', 'self._max_pressure', 'self._min_temperature', 'self._max_temperature'],
+         pattern_externals=_EXO_PARSE,
+         externals={'np.empty(shape=)': dict(lean='np_empty3', args=['(nat, nat, nat)'], ret=_T3)}),
+]
+
+# The whole of HitranCIA.load_hitran_file, reading loop included: the open file is the list of its lines (`streams`; the
+# declared expression `open(filename, 'r')`), `f.readline()` takes the next one ('' at the end); `line.split()`, `float`, `int`
+# on the tokens and `hashwn` are function parameters, `HitranCiaGrid(a, b)` a parameter that makes a grid object; the grid object
+# looked up in `_wn_dict` IS the dict's element (`element_views`).  `while True` is `Py.whileE fuel` (one pass per block).
+_HTOK = [dict(rx=r"(?P<a0>\w+)\.split\(\)", lean='split_ws', args=['str'], ret='[str]'),
+         dict(rx=r"HitranCiaGrid\((?P<a0>\w+), (?P<a1>\w+)\)", lean='new_grid', args=['α', 'α'], ret='rec:Grid')]
+_HEXT = {'float()': dict(lean='to_float', args=['str'], ret='α'), 'int()': dict(lean='to_int', args=['str'], ret='nat'),
+         'hashwn()': dict(lean='hashwn', args=['α', 'α'], ret='str'),
+         'np.argsort()': dict(lean='np_argsort', args=['[α]'], ret='[nat]')}
+_HAT2 = dict(_HAT, **{'self._pair_name': ('pair_name', 'str')})
+_HREC2 = {'Grid': dict(fields=[('wn', '[α]'), ('Tsigma', '[(α, [α])]')],
+                       methods={'sortTempSigma': 'self.sortTempSigma', 'fill_temperature': 'self.fill_temperature',
+                                'add_temperature': 'self.add_temperature'})}
+_HREAD_SPECS = [
+    dict(module=_HC, cls='HitranCIA', func='read_header', lean='HitranCIA_read_header', callname='HitranCIA.read_header',
+         dialect='py', attrs=_HAT2, params=dict(f='[str]'), mutates=['f'], streams=['f'], state=['self._pair_name'],
+         total_index=True, externals=_HEXT, pattern_externals=_HTOK),
+    dict(module=_HC, cls='HitranCIA', func='load_hitran_file', lean='HitranCIA_load_hitran_file', dialect='py', records=_HREC2,
+         attrs=_HAT2, params=dict(filename='skip'), streams=['f'], element_views=True, total_index=True,
+         expr_externals={"open(filename, 'r')": dict(lean='file_lines', ty='[str]')},
+         state=['self._pair_name', 'self._temperature_grid', 'self._wn_dict', 'self._wavenumber_grid', 'self._xsec_grid'],
+         externals=_HEXT, pattern_externals=_HTOK,
+         calls={'self.read_header': 'HitranCIA.read_header', 'self.fill_gaps': 'HitranCIA.fill_gaps',
+                'self.compute_final_grid': 'HitranCIA.compute_final_grid'}),
+]
+
 # Molecule names: which part of the file name (or of the stored name) becomes `moleculeName`, against TaurexModel/Sanitize.lean.
 # `pathlib.Path(x).stem` and `sanitize_molecule_string` (a regular expression) are function parameters.
 _NM = {'self._molecule_name': ('molecule_name', 'str')}
@@ -256,7 +393,7 @@ SRC_SPECS = [
     _g('interp_linear_grid', params=dict(T='α', t_idx_min='nat', t_idx_max='nat')),
     _g('sortTempSigma', state=['self.Tsigma']),
     _g('fill_temperature', params=dict(temperatures='[α]'), state=['self.Tsigma']),
-] + _cia(_PC, 'PickleCIA', 'PickleCIA_') + _cia(_HC, 'HitranCIA', 'HitranCIA_') + _CACHE_SPECS + _LOADER_SPECS + _HITRAN_SPECS + _NAME_SPECS
+] + _cia(_PC, 'PickleCIA', 'PickleCIA_') + _cia(_HC, 'HitranCIA', 'HitranCIA_') + _CACHE_SPECS + _LOADER_SPECS + _HITRAN_SPECS + _NAME_SPECS + _KCACHE_SPECS + _CIACACHE_SPECS + _EXO_SPECS + _HREAD_SPECS
 
 UNITS = {'Pa': 1.0, 'bar': 1e5, 'atm': 101325.0, 'mbar': 100.0, 'kPa': 1000.0, 'hPa': 100.0, 'MPa': 1e6,
          'Torr': 101325.0 / 760.0, 'mmHg': 133.322387415, 'Ba': 0.1}
@@ -1283,7 +1420,7 @@ def eval_cache(ctx, c):
                 toks.append('1' if o[1] else '0')
             elif o[0] == 'add':
                 toks += [C.S(o[1]), str(int(o[2]))]
-        dm = ctx.model().call('c14.cache', *toks)
+        dm = ctx.model().call('c14.kcache' if isk else 'c14.cache', *toks)     # CacheSM.stepK / CacheSM.step
 
         def rd_step():
             code = dm.nat()
@@ -1355,7 +1492,7 @@ def eval_cache(ctx, c):
             if o[0] == 'setPath' and o[1] >= len(fs):
                 pass
             cs = dict(kind=tag, step=n, op=o, nops=len(ops))
-            ctx.check_eq(('KTableCache' if isk else 'OpacityCache') + ' history step vs CacheSM.step', r, ms,
+            ctx.check_eq('KTableCache history step vs CacheSM.stepK' if isk else 'OpacityCache history step vs CacheSM.step', r, ms,
                          dict(cs, fs=fs, ops=ops[:n + 1]))
             sig.append(o[0][0] + str(r['code']))
             # ---- the property's own predicates on the implementation
@@ -1400,6 +1537,228 @@ def eval_cache(ctx, c):
         ctx.case(key=(tag, ''.join(sig)[:60]), sample=dict(kind=tag, ops=ops[:10], trace=sig[:10]),
                  bucket=tag + ':history')
         ctx.bucket(tag + ':ops', len(ops))
+        keep = None
+
+
+# ----------------------------------------------------------------------------------------- CIA cache histories
+CIA_PAIRS = ['H2-H2', 'H2-He', 'N2-N2']
+
+
+def small_ctable(seed):
+    rng = np.random.Generator(np.random.PCG64(seed))
+    return dict(wn=np.array([20.0, 40.0, 90.0]), t=np.array([200.0, 300.0, 500.0]),
+                x=10 ** rng.uniform(-46, -43, size=(3, 3)))
+
+
+class CiaRecorder:
+    """records the constructor calls of the two CIA classes (file name, in call order)"""
+
+    def __init__(self):
+        self.log = []
+
+    def __enter__(self):
+        from taurex.cia import PickleCIA, HitranCIA
+        self.saved = []
+        rec = self
+        for cls in (PickleCIA, HitranCIA):
+            orig = cls.__init__
+
+            def wrapped(self_, filename, *a, _orig=orig, **k):
+                rec.log.append(filename)
+                return _orig(self_, filename, *a, **k)
+            self.saved.append((cls, orig))
+            cls.__init__ = wrapped
+        return self
+
+    def __exit__(self, *a):
+        for cls, orig in self.saved:
+            cls.__init__ = orig
+
+
+def gen_ciacache_case(rng, k):
+    """file system: list of dirs; dir = dict(exists, files=[(fmt, fname, pair read off the name, pair the object reports,
+    tableseed)]), `.db` files first (the order of the two loops of load_cia_from_path); a pair is provided by at most one file
+    per directory; a `.cia` file may carry another pair name in its block headers than in its file name (inconsistent)"""
+    ndirs = int(rng.integers(2, 4))
+    fs = []
+    seed = 0
+    for di in range(ndirs):
+        if di == ndirs - 1 and rng.random() < 0.3:
+            fs.append(dict(exists=False, files=[]))
+            continue
+        dbs, cias = [], []
+        for pair in CIA_PAIRS:
+            r = rng.random()
+            if r < 0.3:
+                continue
+            seed += 1
+            suffix = ['', '_2011', '_norm_2018'][int(rng.integers(0, 3))]
+            if r < 0.62:
+                dbs.append(('db', pair + suffix + '.db', pair, pair, 1000 * k + seed))
+            else:
+                inner = pair if rng.random() < 0.85 else CIA_PAIRS[int(rng.integers(0, 3))]
+                cias.append(('cia', pair + suffix + '.cia', pair, inner, 1000 * k + seed))
+        fs.append(dict(exists=True, files=dbs + cias))
+
+    def path():
+        if rng.random() < 0.7:
+            return ['single', int(rng.integers(0, ndirs))]
+        return ['many', [int(v) for v in rng.permutation(ndirs)[:int(rng.integers(0, ndirs + 1))]]]
+    ops = [['setPath', path()]] if rng.random() < 0.85 else []
+    for _ in range(int(rng.integers(6, 26))):
+        r = rng.random()
+        if r < 0.62:
+            ops.append(['get', CIA_PAIRS[int(rng.integers(0, 3))] if rng.random() < 0.9 else 'XX-YY'])
+        elif r < 0.85:
+            ops.append(['setPath', path()])
+        else:
+            ops.append(['add', CIA_PAIRS[int(rng.integers(0, 3))] if rng.random() < 0.8 else 'XX-YY'])
+    return dict(kind='ciacache', fs=fs, ops=ops)
+
+
+def eval_ciacache(ctx, c):
+    """a history on the real CIACache in lock-step with `CiaSM.step` (driver op c14.ciacache)"""
+    from taurex.cache import CIACache
+    from taurex.cia import CIA
+    full = C.jsonable(c)
+    fs, ops = c['fs'], [list(o) for o in c['ops']]
+    MISSING, DUP = 'cia could notn be loaded', 'cia for molecule %s already exists'
+    with scratch_env() as root, CiaRecorder() as rec:
+        file_ids, tables, dirs = {}, {}, []
+        toks = [str(len(fs))]
+        fid = 0
+        for di, d in enumerate(fs):
+            p = os.path.join(root, 'cdir%d' % di)
+            dirs.append(p)
+            toks.append(str(len(d['files'])))
+            if d['exists']:
+                os.makedirs(p)
+            for (fmt, fname, pair, inner, seed) in d['files']:
+                tab = small_ctable(seed)
+                path = os.path.join(p, fname)
+                if fmt == 'db':
+                    write_cia_pickle(path, tab)
+                else:
+                    write_hitran(path, inner, enc_hitran_single(tab))
+                file_ids[path] = fid
+                tables[fid] = tab
+                toks += ['0' if fmt == 'db' else '1', str(fid), C.S(pair), C.S(inner)]
+                fid += 1
+        toks.append(str(len(ops)))
+        for o in ops:
+            if o[0] == 'get':
+                toks += ['0', C.S(o[1])]
+            elif o[0] == 'setPath':
+                toks += (['1', '0', str(int(o[1][1]))] if o[1][0] == 'single'
+                         else ['1', '1', str(len(o[1][1]))] + [str(int(v)) for v in o[1][1]])
+            else:
+                toks += ['2', C.S(o[1])]
+        dm = ctx.model().call('c14.ciacache', *toks)
+
+        def rd_step():
+            code = dm.nat()
+            r = dict(code=code)
+            if code == 0:
+                r.update(id=dm.nat(), pair=dm.str(), src=dm.opt(dm.nat))
+            r['nlog'] = dm.nat()
+            r['keys'] = dm.list(dm.str)
+            return r
+        msteps = dm.list(rd_step)
+        mlog = dm.list(lambda: (dm.str(), dm.nat()))
+        # ---- the real history
+        cc = CIACache()
+        cc.cia_dict = {}
+        cc._cia_path = None
+        ids_impl, ids_model = {}, {}
+        keep = []
+        served = {}                     # pair -> object served (there is no clearing operation)
+        loads = {}                      # pair -> constructor calls
+        dirty = set()                   # pairs requested while outside the predicates' domain
+        cur = []                        # the directories of the configured path
+        rlog = []
+        sig = []
+        for n, (o, ms) in enumerate(zip(ops, msteps)):
+            before = len(rec.log)
+            r = dict(code=2)
+            obj = None
+            if o[0] == 'get':
+                try:
+                    obj = cc[o[1]]
+                    keep.append(obj)
+                    r = dict(code=0, id=ids_impl.setdefault(id(obj), len(ids_impl)), pair=obj.pairName,
+                             src=file_ids.get(getattr(obj, '_filename', None)))
+                except Exception as e:
+                    if str(e) == MISSING:
+                        r = dict(code=1)
+                    elif str(e) == DUP:
+                        r = dict(code=3)
+                    else:
+                        raise
+            elif o[0] == 'setPath':
+                cur = [dirs[o[1][1]]] if o[1][0] == 'single' else [dirs[i] for i in o[1][1]]
+                cc.set_cia_path(cur[0] if o[1][0] == 'single' else list(cur))
+            else:
+                class MemCIA(CIA):
+                    def __init__(self, pair):
+                        super().__init__('MemCIA', pair)
+                mo = MemCIA(o[1])
+                keep.append(mo)
+                try:
+                    cc.add_cia(mo)
+                except Exception as e:
+                    if str(e) != DUP:
+                        raise
+                    r = dict(code=3)
+            new_loads = rec.log[before:]
+            for fn in new_loads:
+                rlog.append((o[1], file_ids[fn]))
+            r['nlog'] = len(rlog)
+            r['keys'] = list(cc.cia_dict.keys())
+            if ms['code'] == 0:
+                ms = dict(ms, id=ids_model.setdefault(ms['id'], len(ids_model)))
+            ctx.check_eq('CIACache history step vs CiaSM.step', r, ms,
+                         dict(kind='ciacache', step=n, op=o, nops=len(ops), fs=fs, ops=ops[:n + 1]))
+            sig.append(o[0][0] + str(r['code']))
+            # ---- the property's own predicates on the implementation (a pair provided by exactly one file of the configured
+            #      path, whose object reports the advertised name; user-added objects aside)
+            if o[0] == 'get':
+                loads[o[1]] = loads.get(o[1], 0) + len(new_loads)
+                providers = [(d_, f) for d_, dd in zip(dirs, fs) if d_ in cur and dd['exists']
+                             for f in dd['files'] if f[2] == o[1] or f[3] == o[1]]
+                clean = (len(providers) == 1 and providers[0][1][2] == providers[0][1][3] == o[1]
+                         and len(set(cur)) == len(cur))
+                if not clean:
+                    dirty.add(o[1])
+                if obj is not None:
+                    if o[1] in served and served[o[1]] is not obj:
+                        ctx.violation('cia-served-different-object', 'the CIA cache served two different objects for one pair',
+                                      full, dict(step=n, pair=o[1]))
+                    served[o[1]] = obj
+                    if obj.pairName != o[1]:
+                        ctx.violation('cia-served-wrong-pair', 'CIA object served under a different pair name', full,
+                                      dict(step=n, asked=o[1], got=obj.pairName))
+                    fn = getattr(obj, '_filename', None)
+                    if fn in file_ids:
+                        T = 260.0
+                        got = flat(obj.cia(T))
+                        ref = flat(cia_reference(tables[file_ids[fn]], T, None))
+                        if not C.close(got, ref, rel=1e-9, abs_=1e-60):
+                            ctx.violation('cia-cache-value', 'cia(T) of the served object is not that of its file', full,
+                                          dict(step=n, pair=o[1], got=got, want=ref))
+                        if new_loads and os.path.dirname(fn) not in cur:
+                            ctx.violation('cia-loaded-from-wrong-path', 'pair loaded from a directory that is not in the '
+                                          'configured cia_path', full, dict(step=n, file=fn, path=cur))
+                if clean and o[1] not in [oo[1] for oo in ops[:n] if oo[0] == 'add']:
+                    if obj is None:
+                        ctx.violation('cia-present-not-served', 'a pair with one valid file in the configured path could not '
+                                      'be loaded', full, dict(step=n, pair=o[1], code=r['code']))
+                    if loads[o[1]] > 1 and o[1] not in dirty and all(f[2] == f[3] for dd in fs for f in dd['files']):
+                        ctx.violation('cia-loaded-more-than-once', 'a pair was constructed more than once', full,
+                                      dict(step=n, pair=o[1], files=new_loads))
+        ctx.check_eq('CIA constructor-call log vs CiaSM log', rlog, mlog, dict(kind='ciacache', fs=fs, ops=ops))
+        ctx.case(key=('ciacache', ''.join(sig)[:60]), sample=dict(kind='ciacache', ops=ops[:10], trace=sig[:10]),
+                 bucket='ciacache:history')
+        ctx.bucket('ciacache:ops', len(ops))
         keep = None
 
 
@@ -1462,7 +1821,7 @@ def malformed(ctx, n):
     rng = ctx.rng
     for k in range(n):
         kind = ['exo-trailing-blank', 'hdf-unknown-unit', 'pickle-missing-key', 'no-path', 'hitran-overlap',
-                'kpickle-name-mismatch'][k % 6]
+                'kpickle-name-mismatch', 'cia-db-and-hitran-one-pair', 'ktable-two-files-one-molecule'][k % 8]
         try:
             with scratch_env() as root:
                 oc = OpacityCache()
@@ -1497,6 +1856,28 @@ def malformed(ctx, n):
                     write_hitran(os.path.join(root, 'H2-H2.cia'), 'H2-H2', blocks)
                     cc.set_cia_path(root)
                     cc['H2-H2'].cia(250.0)
+                elif kind == 'cia-db-and-hitran-one-pair':
+                    # outside the domain (a pair provided twice in the configured path): the first request raises
+                    # (Props/C14.lean: cia_both_formats_raise), the second is served the .db object
+                    cc = CIACache()
+                    cc.cia_dict = {}
+                    ct = small_ctable(k)
+                    write_cia_pickle(os.path.join(root, 'H2-H2.db'), ct)
+                    write_hitran(os.path.join(root, 'H2-H2_2011.cia'), 'H2-H2', enc_hitran_single(ct))
+                    cc.set_cia_path(root)
+                    cc['H2-H2']
+                elif kind == 'ktable-two-files-one-molecule':
+                    # outside the domain (two k-table files of one molecule): both are constructed by one request
+                    # (CacheSM.stepK; example below Props/C14.lean: ktable_same_machine)
+                    from taurex.cache.ktablecache import KTableCache
+                    write_kpickle(os.path.join(root, 'H2O.pickle'), small_ktable(k), 'H2O')
+                    write_khdf(os.path.join(root, 'H2O_x.h5'), small_ktable(k + 1), 'bar')
+                    GlobalCache()['ktable_path'] = root
+                    KTableCache().clear_cache()
+                    with Recorder() as rec:
+                        KTableCache()['H2O']
+                    ctx.malformed_outcome(kind + ':constructor-calls=%d' % len(rec.log))
+                    continue
                 else:
                     from taurex.cache.ktablecache import KTableCache
                     kt = canon(gen_ktab_case(rng, k))
@@ -1510,7 +1891,7 @@ def malformed(ctx, n):
 
 
 # ----------------------------------------------------------------------------------------- entry points
-EVAL = dict(xsec=eval_xsec, ktab=eval_ktab, cia=eval_cia, cache=eval_cache, kcache=eval_cache)
+EVAL = dict(xsec=eval_xsec, ktab=eval_ktab, cia=eval_cia, cache=eval_cache, kcache=eval_cache, ciacache=eval_ciacache)
 
 
 def run(ctx):
@@ -1526,6 +1907,8 @@ def run(ctx):
         eval_cache(ctx, gen_cache_case(ctx.rng, k))
     for k in range(ctx.n(50, 1200)):
         eval_cache(ctx, gen_kcache_case(ctx.rng, k))
+    for k in range(ctx.n(50, 1200)):
+        eval_ciacache(ctx, gen_ciacache_case(ctx.rng, k))
     malformed(ctx, ctx.n(12, 60))
 
 
